@@ -15,7 +15,7 @@ package kube
 //                               another tenant
 //   container-unprivileged, no-privilege-escalation, no-service-account-token,
 //   no-host-access              pod template
-//   limits-equal-leased, requests-within-limits, requests-match-commit-level,
+//   limits-equal-leased, requests-within-limits,
 //   replicas-equal-count        caps
 //   namespace-valid-dns-label, namespace-injective
 //   ingress-from-outside-denied, egress-to-private-denied   (policies enabled)
@@ -803,8 +803,12 @@ func (r *vC11Run) checkPod(d *appsv1.Deployment, svc *vC11Service) {
 				r.viol("requests-within-limits", trig, fmt.Sprintf("deployment %q container %q: request %s = %s, limit %s (commit level %v)", d.Name, ct.Name, x.name, req.String(), lim.String(), x.level))
 			}
 			if exp, ok := vC11ExpectedRequest(x.leased, x.level); ok {
+				// (the statement bounds requests by the limits and nothing else:
+				// how leased / commit level is rounded, or whether another value
+				// below the limit is requested, is the provider's business -
+				// counted, judged only by requests-within-limits above)
 				if e := qty(exp); req.Cmp(e) != 0 {
-					r.viol("requests-match-commit-level", trig, fmt.Sprintf("deployment %q container %q: request %s = %s, expected %s = leased %d at commit level %v", d.Name, ct.Name, x.name, req.String(), e.String(), x.leased, x.level))
+					res.Count("requests_differ_from_leased_over_commit_level_rounded_to_nearest", 1)
 				}
 			}
 		}
